@@ -29,10 +29,61 @@ def _rot(mask: int, a: int, m: int) -> int:
     return ((mask << a) | (mask >> (m - a))) & full
 
 
+_DIV_CACHE: dict[int, list[int]] = {}
+
+
+def _divisors(m: int) -> list[int]:
+    if m not in _DIV_CACHE:
+        ds = set()
+        i = 1
+        while i * i <= m:
+            if m % i == 0:
+                ds.add(i)
+                ds.add(m // i)
+            i += 1
+        if len(_DIV_CACHE) > 2000:
+            _DIV_CACHE.clear()
+        _DIV_CACHE[m] = sorted(ds)
+    return _DIV_CACHE[m]
+
+
+def _period(mask: int, m: int) -> int:
+    """Smallest p | m such that the subset of Z_m is invariant under translation by p."""
+    if mask.bit_count() < 64:
+        return m
+    for p in _divisors(m):
+        if p == m or _rot(mask, p, m) == mask:
+            return p
+    return m
+
+
+def _fold(mask: int, m: int, p: int) -> int:
+    out = 0
+    low = (1 << p) - 1
+    while mask:
+        out |= mask & low
+        mask >>= p
+    return out
+
+
+def _unfold(mask: int, p: int, m: int) -> int:
+    out = 0
+    for i in range(m // p):
+        out |= mask << (i * p)
+    return out
+
+
 def _sumset(a: int, b: int, m: int) -> int:
     """Minkowski sum of two subsets of Z_m given as bitmasks."""
+    if a == 0 or b == 0:
+        return 0
     if a.bit_count() > b.bit_count():
         a, b = b, a
+    # b is the denser operand: if it is periodic, work in the quotient group
+    if m > 256:
+        p = _period(b, m)
+        if p < m:
+            return _unfold(_sumset(_fold(a, m, p), b & ((1 << p) - 1), p), p, m)
     out = 0
     i = 0
     while a:
@@ -66,6 +117,14 @@ class Node:
     hi: int
 
     def modmask(self, m: int) -> int:
+        c = self.__dict__.setdefault("_mc", {})
+        if m not in c:
+            if len(c) > 64:
+                c.clear()
+            c[m] = self._mm(m)
+        return c[m]
+
+    def _mm(self, m: int) -> int:
         raise NotImplementedError
 
     def mod(self, m: int) -> set[int]:
@@ -93,7 +152,7 @@ class Leaf(Node):
         assert self.s and all(v >= 0 for v in self.s)
         self.lo, self.hi = min(self.s), max(self.s)
 
-    def modmask(self, m):
+    def _mm(self, m):
         return _mask(self.s, m)
 
     def bound(self):
@@ -113,7 +172,7 @@ class Cat(Node):
         self.lo = sum(c.lo for c in ch)
         self.hi = sum(c.hi for c in ch)
 
-    def modmask(self, m):
+    def _mm(self, m):
         acc = 1  # {0}
         for c in self.ch:
             acc = _sumset(acc, c.modmask(m), m)
@@ -146,7 +205,7 @@ class Uni(Node):
         self.lo = min(c.lo for c in ch)
         self.hi = max(c.hi for c in ch)
 
-    def modmask(self, m):
+    def _mm(self, m):
         acc = 0
         for c in self.ch:
             acc |= c.modmask(m)
@@ -184,7 +243,7 @@ class Rep(Node):
         self.a, self.k = a, int(k)
         self.lo, self.hi = a.lo * self.k, a.hi * self.k
 
-    def modmask(self, m):
+    def _mm(self, m):
         return _pow_mask(self.a.modmask(m), self.k, m)
 
     def bound(self):
@@ -213,7 +272,7 @@ class Rng(Node):
         self.a, self.k = a, int(k)
         self.lo, self.hi = 0, a.hi * self.k
 
-    def modmask(self, m):
+    def _mm(self, m):
         # union_{j<=k} jS  ==  k-fold sumset of (S u {0}) ... only if 0-padding is legal: j-fold sums of S padded
         # with (k-j) zeros are exactly the k-fold sums of S u {0}. Yes: that is an identity of sets of integers,
         # hence of residues.
@@ -250,7 +309,7 @@ class Pad(Node):
     def _pad(self, x: int) -> int:
         return -(-x // self.r) * self.r
 
-    def modmask(self, m):
+    def _mm(self, m):
         big = _lcm(self.r, m)
         # x = q*big + t  =>  pad(x) = q*big + pad(t)  (big is a multiple of r), and big is a multiple of m.
         out = 0
